@@ -472,6 +472,8 @@ def _rec_label(rec):
 def _match_labels(case):
     labels = set(['via:' + ('exists' if case['via'] == 'ex' else 'dir-contents' + ('/exact' if case.get('exact')
                                                                                    else ''))])
+    if case.get('repeated'):
+        labels.add('family:one-matcher-applied-to-several-directories')
     kinds = ref.collect_kinds(case.get('expr'), set())
     for k in kinds:
         if k not in ('par', 'const', 'numlines', 'equals'):
